@@ -8,5 +8,5 @@ Extraction "model.ml"
   wt env_ok deq dshow show_int
   bytes slen split_at is_char_boundary slice char_at sfind srfind contains starts_with ends_with
   trim trim_start trim_end trim_start_matches trim_end_matches str_compare str_eqb str_show
-  ser de
+  ser de Json.wf
   arr_slice arr_foldl arr_foldr arr_map arr_compare arr_eqb arr_show.
